@@ -197,6 +197,9 @@ type Exec struct {
 	model     map[string]uint64
 	modelMemo map[*term.T]uint64
 	sibModels []map[string]uint64
+	sibCVs    [][]uint64
+	cvals     []uint64 // values examined by concretize / representative so far (part of the path identity)
+	prefixCV  []uint64
 	startModel map[string]uint64
 }
 
@@ -292,7 +295,9 @@ func sigOf(t *term.T) uint64 {
 // opens the solver scope of the decision, or - while the solver still holds the
 // scopes of the previous path's identical prefix - verifies alignment.
 func (ex *Exec) enterDecision(k int, cond *term.T) {
-	sg := sigOf(cond)
+	// the signature covers the decided condition and the number of terms interned so far:
+	// equal signatures at every decision mean the prefix was re-executed identically
+	sg := sigOf(cond) ^ uint64(ex.tb.NumTerms())<<32
 	ex.sigs = append(ex.sigs, sg)
 	if !ex.live {
 		if k < ex.common {
@@ -431,6 +436,7 @@ func (ex *Exec) decide(kind string, alts []*term.T) int {
 		sib[k] = int32(o)
 		ex.siblings = append(ex.siblings, sib)
 		ex.sibModels = append(ex.sibModels, sibModels[j])
+		ex.sibCVs = append(ex.sibCVs, append([]uint64(nil), ex.cvals...))
 	}
 	if byModel < 0 {
 		ex.setModel(sibModels[pick])
@@ -483,6 +489,7 @@ func (ex *Exec) choice(n int) int {
 		sib[k] = int32(o)
 		ex.siblings = append(ex.siblings, sib)
 		ex.sibModels = append(ex.sibModels, ex.model)
+		ex.sibCVs = append(ex.sibCVs, append([]uint64(nil), ex.cvals...))
 	}
 	ex.decisions = append(ex.decisions, 0)
 	ex.forced = append(ex.forced, false)
@@ -500,30 +507,35 @@ func (ex *Exec) concretize(t *term.T, what string) uint64 {
 	for iter := 0; iter < 1<<16; iter++ {
 		k := len(ex.decisions)
 		var v uint64
-		if !ex.live {
-			// values come from solver models: replay this part with a live solver
-			if k < ex.common {
-				panic(pathAbort{"realign", "concretize inside a retained prefix"})
+		if len(ex.cvals) < len(ex.prefixCV) {
+			// replay: the value examined at this point is part of the prefix
+			v = ex.prefixCV[len(ex.cvals)]
+		} else {
+			if !ex.live {
+				if k < ex.common {
+					panic(pathAbort{"realign", "concretize inside a retained prefix"})
+				}
+				ex.live = true
 			}
-			ex.live = true
-		}
-		// obtain a candidate value deterministically: the solver's model under the PC
-		ex.sol.Push()
-		r := ex.sol.Check()
-		ex.nQueries++
-		if r != smt.Sat {
+			// a candidate value: the solver's model under the path condition
+			ex.sol.Push()
+			r := ex.sol.Check()
+			ex.nQueries++
+			if r != smt.Sat {
+				ex.sol.Pop()
+				if r == smt.Unsat {
+					panic(pathAbort{"assume", "infeasible at concretize"})
+				}
+				panic(pathAbort{"unknown", "solver unknown at concretize " + what + " err=" + ex.sol.LastError + ex.where()})
+			}
+			vals, err := ex.sol.Values([]*term.T{t})
 			ex.sol.Pop()
-			if r == smt.Unsat {
-				panic(pathAbort{"assume", "infeasible at concretize"})
+			if err != nil {
+				panic(pathAbort{"unknown", "model error at concretize: " + err.Error()})
 			}
-			panic(pathAbort{"unknown", "solver unknown at concretize " + what})
+			v = vals[0]
 		}
-		vals, err := ex.sol.Values([]*term.T{t})
-		ex.sol.Pop()
-		if err != nil {
-			panic(pathAbort{"unknown", "model error at concretize: " + err.Error()})
-		}
-		v = vals[0]
+		ex.cvals = append(ex.cvals, v)
 		eq := tb.Eq(t, tb.Const(int(t.W), v))
 		if k < len(ex.prefix) {
 			ch := ex.prefix[k]
@@ -549,6 +561,7 @@ func (ex *Exec) concretize(t *term.T, what string) uint64 {
 			sib[k] = 1
 			ex.siblings = append(ex.siblings, sib)
 			ex.sibModels = append(ex.sibModels, nil)
+			ex.sibCVs = append(ex.sibCVs, append([]uint64(nil), ex.cvals...)) // includes v: the sibling excludes it
 		}
 		ex.enterDecision(k, eq)
 		ex.decisions = append(ex.decisions, 0)
@@ -565,6 +578,13 @@ func (ex *Exec) representative(t *term.T, what string) uint64 {
 	if t.Op == term.OConst {
 		return t.V
 	}
+	if len(ex.cvals) < len(ex.prefixCV) {
+		v := ex.prefixCV[len(ex.cvals)]
+		ex.cvals = append(ex.cvals, v)
+		ex.addPC(ex.tb.Eq(t, ex.tb.Const(int(t.W), v)))
+		ex.nRep++
+		return v
+	}
 	if !ex.live {
 		if len(ex.decisions) < ex.common {
 			panic(pathAbort{"realign", "representative inside a retained prefix"})
@@ -572,27 +592,28 @@ func (ex *Exec) representative(t *term.T, what string) uint64 {
 		ex.live = true
 	}
 	var v uint64
+	found := false
 	if ex.model != nil {
 		if mv, ok := term.Eval(t, ex.model, ex.modelMemo); ok {
-			v = mv
-			ex.addPC(ex.tb.Eq(t, ex.tb.Const(int(t.W), v)))
-			ex.nRep++
-			return v
+			v, found = mv, true
 		}
 	}
-	ex.sol.Push()
-	r := ex.sol.Check()
-	ex.nQueries++
-	if r != smt.Sat {
+	if !found {
+		ex.sol.Push()
+		r := ex.sol.Check()
+		ex.nQueries++
+		if r != smt.Sat {
+			ex.sol.Pop()
+			panic(pathAbort{"assume", "infeasible at representative"})
+		}
+		vals, err := ex.sol.Values([]*term.T{t})
 		ex.sol.Pop()
-		panic(pathAbort{"assume", "infeasible at representative"})
+		if err != nil {
+			panic(pathAbort{"unknown", "model error at representative"})
+		}
+		v = vals[0]
 	}
-	vals, err := ex.sol.Values([]*term.T{t})
-	ex.sol.Pop()
-	if err != nil {
-		panic(pathAbort{"unknown", "model error at representative"})
-	}
-	v = vals[0]
+	ex.cvals = append(ex.cvals, v)
 	ex.addPC(ex.tb.Eq(t, ex.tb.Const(int(t.W), v)))
 	ex.nRep++
 	return v
